@@ -53,6 +53,9 @@ class Ctx:
         self.src = src
         self.index = Index(src)
         self.resolver = Resolver(self.index)
+        from .normalise import reorder_keywords
+
+        self.kw_reordered = reorder_keywords(self.index, self.resolver)
         self.quiet = quiet
         self.findings: List[Finding] = []
         self.infos: List[str] = []
